@@ -370,7 +370,7 @@ func (m *Monitor) checkArg(f *Fn, n node, kind string, i int, p Param, got []*To
 		m.snap = nil
 		m.resetMemo()
 		if a == avYes {
-			m.violate("C04", "C04.optional-zero-but-avail", "f%d optional param %v is zero although provider f%d is available", f.ID, p, r.F.ID)
+			m.violate("C04,C01", "C04.optional-zero-but-avail", "f%d optional param %v is zero although provider f%d is available", f.ID, p, r.F.ID)
 		}
 		m.stats["arg.optzero.unavail"]++
 		m.situ[sit+"single-optional-zero-unavail"]++
@@ -443,7 +443,10 @@ func (m *Monitor) paramInObject(f *Fn, i int) bool {
 }
 func (m *Monitor) sameObject(f *Fn, i, j int) bool {
 	p := m.encPaths(f)
-	if p == nil || len(p[i]) != len(p[j]) || len(p[i]) < 2 {
+	// j lies in the parameter object that directly holds the soft field i, at the same level or
+	// nested deeper: every non-soft field of that object, nested objects included, is built before
+	// the object's own soft fields
+	if p == nil || len(p[j]) < len(p[i]) || len(p[i]) < 2 {
 		return false
 	}
 	for x := 0; x < len(p[i])-1; x++ {
@@ -517,6 +520,12 @@ func (m *Monitor) onCallback(f *Fn, ci dig.CallbackInfo) {
 	case "err":
 		if ci.Error == nil {
 			m.violate("C20", "C20.callback-error", "f%d failed with %v but callback Error is nil", f.ID, rec.Err)
+		} else if rec.Err.Inner != nil {
+			// the function's error wraps a foreign dig error: RootCause looks through it (known finding of C13);
+			// the callback must still carry the function's own error
+			if !errors.Is(ci.Error, rec.Err) {
+				m.violate("C20", "C20.callback-error", "f%d callback Error %v does not carry the function's error %v", f.ID, ci.Error, rec.Err)
+			}
 		} else if dig.RootCause(ci.Error) != error(rec.Err) {
 			m.violate("C20", "C20.callback-error", "f%d callback root cause %v is not the function's error %v", f.ID, dig.RootCause(ci.Error), rec.Err)
 		}
@@ -922,8 +931,17 @@ func (m *Monitor) afterInvoke(i int, op *Op, f *Fn, rec *OpRec) {
 			if rec.Err != error(e.Err) {
 				m.violate("C13", "C13.invoked-error-changed", "Invoke returned %v, not the invoked function's own error value", rec.Err)
 			}
-		} else if rc := dig.RootCause(rec.Err); rc != error(e.Err) || !errors.Is(rec.Err, e.Err) {
-			m.violate("C13,C07", "C13.rootcause", "root cause %v is not the injected error %v", rc, e.Err)
+		} else if !errors.Is(rec.Err, e.Err) {
+			m.violate("C13,C07", "C13.rootcause", "errors.Is does not find the injected error %v in %v", e.Err, rec.Err)
+		} else if rc := dig.RootCause(rec.Err); rc != error(e.Err) {
+			// known finding F16: RootCause looks THROUGH a user error that wraps a dig error and yields the root
+			// cause of the wrapped (foreign) error. Anything else is an ordinary C13.rootcause violation.
+			if e.Err.Inner != nil && rc != nil && fmt.Sprintf("%T|%v", rc, rc) == fmt.Sprintf("%T|%v", dig.RootCause(e.Err.Inner), dig.RootCause(e.Err.Inner)) {
+				m.stats["invoke.with-nested-dig-error"]++
+				m.violate("C13", "C13.rootcause-nested-dig-error", "f%d returned an error that wraps another container's dig error; RootCause yields %T %v, not the function's own error", e.Fn, rc, rc)
+			} else {
+				m.violate("C13,C07", "C13.rootcause", "root cause %v is not the injected error %v", rc, e.Err)
+			}
 		}
 	default:
 		if cl == VUser || cl == VPanicErr {
